@@ -120,6 +120,10 @@ var modes = []string{"", "local", "fastlocal", "local:force", "force", "none", "
 func genProfile(r *rand.Rand) *profile.Profile {
 	m1 := &profile.Mapping{ID: 1 + uint64(r.Intn(2))*10, Start: 0x1000, Limit: 0x2000, File: []string{"/bin/binA", "http://host/debug/pprof/profile", "[vdso]", ""}[r.Intn(4)]}
 	m2 := &profile.Mapping{ID: 2, Start: 0x3000, Limit: 0x4000, Offset: 0x1000, File: "/lib/binB"}
+	if r.Intn(3) == 0 {
+		// two objects reported at the same addresses: equal addresses in different mappings
+		m2.Start, m2.Limit = m1.Start, m1.Limit
+	}
 	p := &profile.Profile{SampleType: []*profile.ValueType{{Type: "n", Unit: "count"}, {Type: "v", Unit: "ms"}}, Mapping: []*profile.Mapping{m1, m2}, PeriodType: &profile.ValueType{Type: "cpu", Unit: "ns"}, Period: 1}
 	if r.Intn(4) == 0 {
 		p.Mapping = append(p.Mapping, &profile.Mapping{ID: 77, Start: 0x9000, Limit: 0xa000}) // fake / dangling mapping
@@ -166,7 +170,7 @@ func genProfile(r *rand.Rand) *profile.Profile {
 		l.Address = m.Start + []uint64{0, 1, 0x10, 0xfff, 0x20}[r.Intn(5)] // mapping edges
 		if r.Intn(5) == 0 {
 			l.Mapping = nil
-			l.Address = 0x7000
+			l.Address = []uint64{0x7000, 0x1000, 0x1010, 0x3010}[r.Intn(4)] // may equal a mapped address
 		}
 		if r.Intn(2) == 0 {
 			for j, n := 0, 1+r.Intn(2); j < n; j++ {
